@@ -73,7 +73,7 @@ LETTERS = 'abcdefghijklmnopqrstuvwxyzABCDEFGHIJKLMNOPQRSTUVWXYZ'
 # ----------------------------------------------------------------------------- AST
 
 class Node:
-    __slots__ = ('kind', 'sub', 'name', 'args', 'seps', 'children', 's', 'start', 'end', 'skip')
+    __slots__ = ('kind', 'sub', 'name', 'args', 'seps', 'children', 's', 'start', 'end', 'skip', 'meta')
 
     def __init__(self, kind, sub=None, name=None, args=None, children=None, s=None, seps=None):
         self.kind, self.sub, self.name = kind, sub, name
@@ -83,11 +83,13 @@ class Node:
         self.s = s
         self.start = self.end = -1
         self.skip = ()
+        self.meta = None
 
     def clone(self):
         n = Node(self.kind, self.sub, self.name, [a.clone() for a in self.args],
                  [c.clone() for c in self.children], self.s, list(self.seps))
         n.skip = self.skip
+        n.meta = self.meta
         return n
 
     def __repr__(self):
@@ -864,7 +866,14 @@ class Gen:
             f = force if (force and i == 0) else None
             if f is None and depth > 3 and i == spine and r.random() < 0.8:
                 f = 'structured'
-            out.append(self.elem(cx, d, f))
+            e = self.elem(cx, d, f)
+            out.append(e)
+            if e.kind == 'cmd' and e.sub == 'zero' and r.random() < 0.5:
+                # a zero-argument operator directly followed by brackets / a group: they stay text / a sibling
+                if r.random() < 0.8:
+                    out.append(text(r.choice(['[0,1)', '[', '(0,1)'] + ([] if cx.brtop else ['[a]', '(a]', ']', '[0,1]']))))
+                elif depth > 0:
+                    out.append(self.free_group(cx, min(depth, 1)))
         return out
 
     def elem(self, cx, depth, force=None):
@@ -1025,6 +1034,7 @@ def document(rng, depth=4, layout='adjacent', weights=None, twins=0.0, hostile=0
     root = Node('root', children=g.seq(Cx(), depth, rng.randint(1, width + 2)))
     fix(root, rng, eof_comment)
     root.skip = tuple(g.skip)
+    root.meta = {'twins': g.ntwins, 'layout': layout}
     src = render(root)
     return src, root
 
